@@ -2,29 +2,45 @@
 import math
 from fractions import Fraction
 
+import common
 import treeutil as tu
 from common import stable_hash
 from props import c01, c04
 
 ID = "C05"
 GEN_DEPENDS = ["PyBits"]
-RULE = ("samples of 1-12 trees over 3-8 taxa (namespace sometimes with an extra member or a hole), drawn around a base topology so that "
-        "majority splits exist, rooted / unrooted (rarely mixed), polytomies and unary nodes, dyadic / None lengths, tree weights "
-        "None / 1 / dyadic / all zero, use_tree_weights on and off, thresholds {None, 0, 1/4, 1/2, GREATER_THAN_HALF, 5/8, 3/4, 1}; "
-        "non-trivial = at least two distinct topologies in the sample")
+RULE = ("samples of 1-12 trees over 3-8 taxa (namespace sometimes with a hole = removed member, in the property's domain; sometimes with an "
+        "extra member no tree carries, outside the domain and judged on the domain-free clauses only), drawn around a base topology so "
+        "that majority splits exist, rooted / unrooted / unspecified rooting (rarely mixed), polytomies and unary nodes, dyadic / zero / "
+        "None lengths, tree weights None / 1 / dyadic / all zero, use_tree_weights on and off, thresholds {None, 0, 1/4, 1/2, "
+        "GREATER_THAN_HALF, 5/8, 3/4, 1}; targets from the sample or perturbed; support as fraction / percentage / label; every case is a "
+        "self-contained description (tokens of every tree) that `--replay` re-runs; non-trivial = at least two distinct topologies")
 MODELLED_NOT_VERIFIED = [
     "C05: the Lean model (Model/C05.lean on C01/C04) is hand-written from SplitDistribution.count_splits_on_tree / calc_freqs / consensus_tree, "
-    "TreeArray.calculate_*_of_split_supports and collapse_edges_with_less_than_minimum_support; tied per sample (frequencies, consensus tree "
-    "with child order, scores, first maximiser, per-split length statistics, collapsed tree)",
-    "C05: math.log in the product score (the model multiplies supports; compared through exp within 1e-9), binary64 (weights and thresholds are "
-    "dyadic so exact and float verdicts coincide), HPD / 5-95 quantiles and annotation objects (not in the statement)",
+    "TreeArray.calculate_*_of_split_supports, summarize_splits_on_tree (support) and collapse_edges_with_less_than_minimum_support; tied per "
+    "sample (frequencies, consensus tree with child order, scores, maximiser when unique, per-split count/mean/median/min/max/variance as "
+    "exact rationals, supports written on a target, collapsed tree)",
+    "C05: math.log in the product score (the model multiplies supports; compared through exp within 1e-9), binary64 (weights, lengths and "
+    "thresholds are dyadic so exact and float verdicts coincide; means and variances are compared within 1e-9 / 1e-6), HPD / 5-95 quantiles "
+    "and annotation objects (not in the statement); node ages are checked by the oracle only (not modelled)",
+    "C05: the hypotheses of the majority-rule theorems are derived (treeRecOf_rooted_hts) for the driver's records of well-formed ROOTED trees; "
+    "the not-rooted majority-rule case has the any-threshold theorems only (nothing below threshold, compatible, greedy by frequency)",
 ]
-EXPLANATION = ("Theorems: frequency = weighted count / normaliser and 0 for absent splits; a count is never stale (freq reads the current counts); "
-               "splits above one half pairwise co-occur in a tree hence are laminar and all inserted in any order (majority rule); the greedy "
-               "insertion skips exactly the splits conflicting with the tree built so far (maximality); the consensus keeps the star's leaf set; "
-               "collapse keeps root-to-tip distances; the reported maximiser is the first index attaining the maximum score.")
+EXPLANATION = ("Theorems (all about the definitions the driver runs): frequency = weighted count / normaliser, 0 for absent splits; "
+               "majority_consensus_reaches/_exact: rooted samples, threshold > 1/2 -> the consensus clades are exactly the star's plus the "
+               "counted splits whose frequency reaches the threshold (strict_consensus_exact: threshold 1, unit weights, < 10^7 trees -> "
+               "exactly the splits present in every tree); consensus_only_candidates + consensus_greedy_by_frequency: any threshold and "
+               "rooting -> nothing below the threshold, pairwise compatible, and a skipped candidate is blocked by a clade that comes from "
+               "an earlier, at least as frequent candidate; consensus_spans; consensus_rooting_spec (rooted iff some tree counted and all "
+               "rooted); treeRecOf_rooted_clades/_nodup/_hts (the driver's record of a well-formed rooted tree lists, once each, the clades of a "
+               "well-formed hierarchy: the hypotheses of the majority theorems hold for driver-built records); "
+               "collapse_removes_exactly (the internal nodes left are exactly those with frequency >= threshold, root-to-tip kept); "
+               "stats_spec (mean, median/min/max off a sorted permutation, sample variance); argmaxFirst_spec.")
 
 THRESHOLDS = [None, 0.0, 0.25, 0.5, "GTH", 0.625, 0.75, 1.0]
+ROOTED = {"R": True, "U": False, "N": None}
+DEFECT_BASAL = "basal-split-counted-twice"
+DEFECT_ABSENT = "absent-members-added"
 
 
 def gth(dendropy):
@@ -32,11 +48,11 @@ def gth(dendropy):
     return constants.GREATER_THAN_HALF
 
 
-# ------------------------------------------------------------------ generators
+# ------------------------------------------------------------------ generators (harness code only: no library routine under test)
 def gen_sample(dendropy, rng, ctx):
     n = rng.randint(3, ctx.pick(8, 12))
-    extra = 1 if rng.random() < 0.15 else 0
-    hole = rng.random() < 0.1
+    extra = 1 if rng.random() < 0.06 else 0
+    hole = rng.random() < 0.15
     total = n + extra + (1 if hole else 0)
     holes = [rng.randrange(total)] if hole else []
     tns = tu.make_namespace(dendropy, 0, labels=["t%d" % i for i in range(total)], holes=holes)
@@ -77,26 +93,71 @@ def gen_sample(dendropy, rng, ctx):
     return tns, trees
 
 
-def sample_case(tns, trees, use_w, thr, incl):
-    return {"op": "summ", "ns": c01.namespace_desc(tns), "use_weights": use_w, "threshold": thr, "incl_external": incl,
-            "trees": [{"rooted": c01.ROOT[t.is_rooted], "weight": None if t.weight is None else tu.frac(t.weight),
-                       "tree": tu.encode_tree(t, with_labels=False)[0]} for t in trees],
-            "basal_bifurcation_survives": any(c04.basal_survives(t) for t in trees),
-            "namespace_has_absent_members": any(tu.leafset_masks(t)[id(t.seed_node)] != sum(1 << tns.accession_index(x) for x in tns) for t in trees)}
+def tree_rec(t):
+    return {"rooted": c01.ROOT[t.is_rooted], "weight": None if t.weight is None else tu.frac(t.weight),
+            "tree": tu.encode_tree(t, with_labels=False)[0]}
+
+
+def members_mask(tns):
+    return sum(1 << tns.accession_index(x) for x in tns)
+
+
+def basal_split(t):
+    """None, or the split that BOTH basal edges of a not-rooted tree carry once it is encoded with default flags, decided on the
+    drawing alone: the basal bifurcation is opened up only when the seed has exactly two children as drawn and one of them has
+    >= 2 children; unifurcations are suppressed afterwards (a unifurcating seed gives way to the first branching node below it)"""
+    if t.is_rooted:
+        return None
+    eff = list(t.seed_node._child_nodes)
+    if len(eff) == 2 and (len(eff[1]._child_nodes) >= 2 or len(eff[0]._child_nodes) >= 2):
+        return None
+
+    def resolve(nd):
+        while len(nd._child_nodes) == 1:
+            nd = nd._child_nodes[0]
+        return nd
+    if len(eff) == 1:
+        eff = list(resolve(eff[0])._child_nodes)
+    if len(eff) != 2:
+        return None
+    masks = tu.leafset_masks(t)
+    L = masks[id(t.seed_node)]
+    m = masks[id(eff[0])]
+    return (L & ~m) if (m & (L & -L)) else m
+
+
+def sample_case(tns, trees, use_w, thr, incl, **more):
+    F = members_mask(tns)
+    c = {"op": "summ", "ns": c01.namespace_desc(tns), "use_weights": use_w, "threshold": thr, "incl_external": incl,
+         "trees": [tree_rec(t) for t in trees],
+         "basal_bifurcation_survives": any(basal_split(t) is not None for t in trees),
+         "namespace_has_absent_members": any(tu.leafset_masks(t)[id(t.seed_node)] != F for t in trees)}
+    c.update(more)
+    return c
+
+
+def namespace_of_case(dendropy, c):
+    return c01.tree_for_case(dendropy, {"ns": c["ns"], "rooted": "R", "tree": c["trees"][0]["tree"]})[0].taxon_namespace
+
+
+def tree_of_rec(dendropy, rec, tns):
+    t, ids = tu.tree_from_tokens(dendropy, rec["tree"], rooted=ROOTED[rec["rooted"]], tns=tns)
+    w = rec.get("weight")
+    t.weight = None if w is None else float(Fraction(w))
+    return t, ids
 
 
 def trees_of_case(dendropy, c):
-    tns = c01.tree_for_case(dendropy, {"ns": c["ns"], "rooted": "R", "tree": c["trees"][0]["tree"]})[0].taxon_namespace
-    out = []
-    for rec in c["trees"]:
-        t, _ = tu.tree_from_tokens(dendropy, rec["tree"], rooted={"R": True, "U": False, "N": None}[rec["rooted"]], tns=tns)
-        t.weight = None if rec["weight"] is None else float(Fraction(rec["weight"]))
-        out.append(t)
-    return tns, out
+    tns = namespace_of_case(dendropy, c)
+    return tns, [tree_of_rec(dendropy, rec, tns)[0] for rec in c["trees"]]
 
 
 def thr_value(dendropy, thr):
     return gth(dendropy) if thr == "GTH" else thr
+
+
+def recs_line(c):
+    return " ".join("%s %s %s" % (r["rooted"], "N" if r["weight"] is None else r["weight"], " ".join(r["tree"])) for r in c["trees"])
 
 
 # ------------------------------------------------------------------ independent oracle
@@ -104,7 +165,9 @@ def weight_of(t, use_w):
     return Fraction(t.weight) if (t.weight is not None and use_w) else Fraction(1)
 
 
-def oracle_freqs(trees, use_w):
+def oracle_freqs(trees, use_w, double_basal=False):
+    """the statement: weighted fraction of trees CONTAINING the split.  double_basal=True instead describes the documented defect
+    (known finding): a tree whose basal bifurcation survives encoding is counted twice for the split of its two basal edges"""
     sets = [set(c04.split_lengths(t)) for t in trees]
     W = sum((weight_of(t, use_w) for t in trees), Fraction(0))
     norm = W if W != 0 else Fraction(len(trees))
@@ -112,11 +175,24 @@ def oracle_freqs(trees, use_w):
     for t, s in zip(trees, sets):
         for x in s:
             out[x] = out.get(x, Fraction(0)) + weight_of(t, use_w)
+        if double_basal:
+            b = basal_split(t)
+            if b is not None:
+                out[b] = out.get(b, Fraction(0)) + weight_of(t, use_w)
     return {x: v / norm for x, v in out.items()}, sets
 
 
+def canon_split(mask, Fmask, rooted):
+    """a split as a bipartition of the namespace MEMBERS: the clade (rooted) / the side without the lowest member (not rooted)"""
+    A = mask & Fmask
+    if rooted:
+        return A
+    low = Fmask & -Fmask
+    return (Fmask & ~A) if (A & low) else A
+
+
 def nontrivial(mask, F, rooted=False):
-    """informative: a clade of 2..n-1 taxa on rooted trees, a bipartition with >= 2 taxa on both sides on unrooted ones"""
+    """informative: a clade of 2..n-1 taxa on rooted trees, a bipartition with >= 2 taxa on both sides otherwise"""
     A = c01.bits_of(mask) & F
     return len(A) >= 2 and len(F - A) >= (1 if rooted else 2)
 
@@ -126,19 +202,6 @@ def compatible(a, b, F, rooted):
     if rooted:
         return (not (A & B)) or A <= B or B <= A
     return c01.quadrants_empty(A, B, F)
-
-
-def canon_split(mask, allmask, rooted):
-    """clade (rooted) / side without the lowest namespace bit (unrooted), as a frozenset over ALL namespace bits"""
-    if rooted:
-        return mask
-    low = allmask & -allmask
-    return (allmask & ~mask) if (mask & low) else mask
-
-
-def tree_splits_all(tree, allmask, rooted):
-    masks = tu.leafset_masks(tree)
-    return {canon_split(m, allmask, rooted) for m in masks.values()}
 
 
 def close(x, y, tol=1e-9):
@@ -157,9 +220,61 @@ def root_tip(tree):
     return out
 
 
+def node_splits(tree):
+    """[(node, split)] from scratch: leafset (rooted) / side without the tree's own lowest taxon (otherwise)"""
+    masks = tu.leafset_masks(tree)
+    L = masks[id(tree.seed_node)]
+    low = L & -L
+    rooted = bool(tree.is_rooted)
+    return [(nd, masks[id(nd)] if rooted else ((L & ~masks[id(nd)]) if (masks[id(nd)] & low) else masks[id(nd)]))
+            for nd in tu.walk(tree.seed_node)], L
+
+
+def exact_stats(vals):
+    sv = sorted(vals)
+    n = len(sv)
+    mean = sum(sv, Fraction(0)) / n
+    med = sv[n // 2] if n % 2 else (sv[n // 2 - 1] + sv[n // 2]) / 2
+    var = (sum(((v - mean) ** 2 for v in sv), Fraction(0)) / (n - 1)) if n >= 2 else None
+    return mean, med, sv[0], sv[-1], var
+
+
+def summary_problem(obj, prefix, vals):
+    """mean / median / range / sd attributes of a node or edge against the values over the input trees (median and range exactly)"""
+    mean, med, lo, hi, var = exact_stats(vals)
+    g = lambda f: getattr(obj, prefix + f, None)
+    rng_ = g("range")
+    try:
+        ok = close(g("mean"), float(mean)) and Fraction(g("median")) == med and len(rng_) == 2 and \
+            Fraction(rng_[0]) == lo and Fraction(rng_[1]) == hi
+        if ok and var is not None:
+            ok = close(g("sd") ** 2, float(var), 1e-6)
+    except (TypeError, ValueError):
+        ok = False
+    if ok:
+        return None
+    return "mean/median/range/sd = %r/%r/%r/%r, the values over the input trees are %s" % (
+        g("mean"), g("median"), rng_, g("sd"), [str(v) for v in vals])
+
+
+def argmax_set(scores, tol=1e-12):
+    m = max(scores)
+    return [i for i, s in enumerate(scores) if close(s, m, tol)]
+
+
+def fresh_list(dendropy, tns, trees):
+    tl = dendropy.TreeList(taxon_namespace=tns)
+    for t in trees:
+        c = c04.clone(dendropy, t)
+        c.weight = t.weight
+        tl.append(c)
+    return tl
+
+
 # ------------------------------------------------------------------ the check of one sample
-def check_sample(ctx, dendropy, tns, trees, use_w, thr, incl, pending):
-    case = sample_case(tns, trees, use_w, thr, incl)
+def check_sample(ctx, dendropy, case, pending):
+    tns, trees = trees_of_case(dendropy, case)
+    use_w, thr, incl = case["use_weights"], case["threshold"], case["incl_external"]
     thr_v = thr_value(dendropy, thr)
     distinct = len({c01.canon_rooted(t) for t in trees})
     ctx.case(["summ", stable_hash(case)], distinct >= 2, sample={k: case[k] for k in ("ns", "use_weights", "threshold", "trees")}
@@ -167,15 +282,11 @@ def check_sample(ctx, dendropy, tns, trees, use_w, thr, incl, pending):
     fr, sets = oracle_freqs(trees, use_w)
     members = [tns.accession_index(t) for t in tns]
     F = set(members)
+    Fmask = members_mask(tns)
     allmask = tns.all_taxa_bitmask()
-
-    def fresh():
-        tl = dendropy.TreeList(taxon_namespace=tns)
-        for t in trees:
-            c = c04.clone(dendropy, t)
-            c.weight = t.weight
-            tl.append(c)
-        return tl
+    basal = [basal_split(t) for t in trees]
+    basal_set = {b for b in basal if b is not None}
+    fresh = lambda: fresh_list(dendropy, tns, trees)
     # ---- (a) frequencies, TreeList.split_distribution and TreeArray routes
     sd = fresh().split_distribution(use_tree_weights=use_w, default_edge_length_value=0)
     rootings = {t.is_rooted for t in trees}   # None (unspecified) and False are different states to TreeArray.validate_rooting
@@ -185,67 +296,89 @@ def check_sample(ctx, dendropy, tns, trees, use_w, thr, incl, pending):
         ta = dendropy.TreeArray(taxon_namespace=tns, use_tree_weights=use_w)
         ta.add_trees(fresh())
         routes.append(("TreeArray.split_distribution", ta.split_distribution))
+    defect = False
     for name, d in routes:
-        got_keys = set(d.split_counts)
-        if got_keys != set(fr):
-            ctx.fail("frequency", "%s reports splits %s, the trees contain %s" % (name, sorted(got_keys ^ set(fr))[:6], "other"), case)
+        got = {s: d[s] for s in d}
+        if set(got) != set(fr):
+            ctx.fail("frequency", "%s reports splits %s that differ from those the trees contain" % (name, sorted(set(got) ^ set(fr))[:6]), case)
             return
-        for s, f in fr.items():
-            if not close(d[s], float(f), 1e-12):
-                ctx.fail("frequency", "%s[%d] = %r, weighted fraction of trees containing it = %s" % (name, s, d[s], f), case)
-                return
+        bad = [s for s, f in fr.items() if not close(got[s], float(f), 1e-12)]
+        if bad and basal_set:
+            fr_dc, _ = oracle_freqs(trees, use_w, double_basal=True)
+            if all(close(got[s], float(f), 1e-12) for s, f in fr_dc.items()):
+                # exactly the documented defect and nothing else: everything downstream is judged against these frequencies
+                ctx.fail("frequency-basal-double-count", "%s[%d] = %r, weighted fraction of trees containing it = %s: each tree whose basal "
+                         "bifurcation survives encoding is counted twice for the split of its two basal edges" % (name, bad[0], got[bad[0]], fr[bad[0]]),
+                         dict(case, defect=DEFECT_BASAL))
+                defect = True
+                continue
+        if bad:
+            ctx.fail("frequency", "%s[%d] = %r, weighted fraction of trees containing it = %s" % (name, bad[0], got[bad[0]], fr[bad[0]]), case)
+            return
         absent = max(fr) + 2
         if d[absent] != 0:
             ctx.fail("frequency", "%s reports %r for a split that occurs in no tree" % (name, d[absent]), case)
+    if defect:
+        fr = oracle_freqs(trees, use_w, double_basal=True)[0]
     # cache invalidation: frequencies read after counting one more tree
-    if trees:
-        d2 = fresh().split_distribution(use_tree_weights=use_w)
-        _ = d2[max(fr)]
-        extra = c04.clone(dendropy, trees[0])
-        extra.weight = trees[0].weight
-        d2.count_splits_on_tree(extra)
-        fr2, _s = oracle_freqs(trees + [trees[0]], use_w)
-        for s, f in fr2.items():
-            if not close(d2[s], float(f), 1e-12):
-                ctx.fail("frequency", "after counting one more tree split %d has frequency %r, expected %s (stale table?)" % (s, d2[s], f), case)
-                break
+    d2 = fresh().split_distribution(use_tree_weights=use_w)
+    _ = d2[max(fr)]
+    extra = c04.clone(dendropy, trees[0])
+    extra.weight = trees[0].weight
+    d2.count_splits_on_tree(extra)
+    fr2, _s = oracle_freqs(trees + [trees[0]], use_w, double_basal=defect)
+    for s, f in fr2.items():
+        if not close(d2[s], float(f), 1e-12):
+            ctx.fail("stale", "after counting one more tree split %d has frequency %r, expected %s (stale table?)" % (s, d2[s], f), case)
+            break
     # ---- (b)-(d) consensus
-    for route in ("TreeList.consensus", "TreeArray.consensus_tree"):
-        if len(rootings) > 1:
-            continue
+    mixed = (True in rootings) and len(rootings) > 1       # rooted and not-rooted trees in one sample: no rooting state to inherit
+    crooted = rootings == {True}
+    full_sets = all(tu.leafset_masks(t)[id(t.seed_node)] == Fmask for t in trees)    # the property's domain
+    thr_f = None if thr_v is None else Fraction(thr_v)
+    for route in ("TreeList.consensus", "TreeArray.consensus_tree", "SplitDistribution.consensus_tree"):
+        if len(rootings) > 1 and route != "SplitDistribution.consensus_tree":
+            continue       # TreeArray refuses mixed rooting flags by design
         try:
             if route == "TreeList.consensus":
-                if len(rootings) > 1:
-                    continue       # TreeArray refuses mixed rootings by design
                 con = fresh().consensus(min_freq=thr_v, use_tree_weights=use_w)
-            else:
+            elif route == "TreeArray.consensus_tree":
                 con = ta.consensus_tree(min_freq=thr_v)
+            else:
+                con = fresh().split_distribution(use_tree_weights=use_w).consensus_tree(min_freq=thr_v)
         except Exception as e:
+            if not common.is_library_exception(e):
+                raise
             ctx.fail("consensus", "%s raised %s: %s" % (route, type(e).__name__, str(e)[:120]), case)
             continue
-        crooted = rootings == {True}
         probs = tu.arborescence_problems(con)
         if probs:
             ctx.fail("consensus", "%s returned a malformed tree: %s" % (route, probs), case)
             continue
-        leaves = sorted(tns.accession_index(nd.taxon) for nd in tu.walk(con.seed_node) if not nd._child_nodes and nd.taxon is not None)
-        if leaves != sorted(members) or any(nd.taxon is None for nd in tu.walk(con.seed_node) if not nd._child_nodes):
+        tips = [nd for nd in tu.walk(con.seed_node) if not nd._child_nodes]
+        leaves = sorted(tns.accession_index(nd.taxon) for nd in tips if nd.taxon is not None)
+        if leaves != sorted(members) or any(nd.taxon is None for nd in tips):
             ctx.fail("consensus", "%s does not span every taxon of the namespace exactly once: leaves %s" % (route, leaves), case)
             continue
-        if bool(con.is_rooted) != crooted:
-            ctx.fail("consensus", "%s has rooting %s, input trees are %s" % (route, con.is_rooted, "rooted" if crooted else "unrooted"), case)
-        # candidate splits in canonical form over the namespace
-        thr_f = None if thr_v is None else Fraction(thr_v)
+        if not mixed and bool(con.is_rooted) != crooted:
+            ctx.fail("consensus", "%s has rooting %s, input trees are %s" % (route, con.is_rooted, "rooted" if crooted else "not rooted"), case)
+        # (e) support on the consensus nodes: the frequency of the node's split (0 for a split in no tree), whatever the sample
+        for nd, s in node_splits(con)[0]:
+            want = fr.get(s, Fraction(0))
+            sup = getattr(nd, "support", None)
+            if sup is None or not close(sup, float(want), 1e-12):
+                ctx.fail("support", "%s: node with split %d carries support %r, frequency is %s" % (route, s, sup, want), case)
+                break
+        if mixed or not full_sets:
+            continue   # outside the quantifier (trees lacking namespace members / no common rooting state): split clauses not judged
         cand = {}
         for s, f in fr.items():
-            cs = canon_split(s, allmask, crooted) if all(set(c01.bits_of(s)) <= F for _ in [0]) else s
+            cs = canon_split(s, Fmask, crooted)
             if nontrivial(cs, F, crooted) and (thr_f is None or f >= thr_f):
                 cand[cs] = max(f, cand.get(cs, Fraction(0)))
-        got = {s for s in tree_splits_all(con, allmask, crooted) if nontrivial(s, F, crooted)}
-        full_sets = all(tu.leafset_masks(t)[id(t.seed_node)] == allmask for t in trees)
-        if not full_sets:
-            continue   # trees lacking namespace members: masks are relative to each tree's own leafset; not judged here
-        if thr_f is not None and thr_f > Fraction(1, 2):
+        got = {canon_split(m, Fmask, crooted) for m in tu.leafset_masks(con).values()}
+        got = {s for s in got if nontrivial(s, F, crooted)}
+        if thr_f is not None and thr_f > Fraction(1, 2) and not defect:
             if got != set(cand):
                 ctx.fail("consensus", "%s at threshold %s has non-trivial splits %s, those with frequency >= threshold are %s" % (
                     route, thr, sorted(got), sorted(cand)), case)
@@ -265,90 +398,92 @@ def check_sample(ctx, dendropy, tns, trees, use_w, thr, incl, pending):
                     if all(cand[r] < f for r in blockers):
                         ctx.fail("consensus", "%s skipped split %d (freq %s) in favour of less frequent conflicting splits" % (route, c, f), case)
                         break
-        # (e) support on the consensus nodes
-        masks = tu.leafset_masks(con)
-        L = masks[id(con.seed_node)]
-        low = L & -L
-        for nd in tu.walk(con.seed_node):
-            m = masks[id(nd)]
-            s = m if crooted else ((L & ~m) if (m & low) else m)
-            want = fr.get(s, Fraction(0))
+    # ---- (e) summaries on a target tree, both entry points, support as fraction / percentage / label
+    per_split = {}
+    for t in trees:
+        for s, l in c04.split_lengths(t).items():
+            per_split.setdefault(s, []).append(l)
+    tgt_rec = case.get("target") or case["trees"][0]
+    opts = case.get("summ_opts") or {}
+    pct, as_label = bool(opts.get("pct")), bool(opts.get("label"))
+    annot = None
+    for route in ("TreeArray.summarize_splits_on_tree", "SplitDistribution.summarize_splits_on_tree"):
+        if route.startswith("TreeArray") and ta is None:
+            continue
+        tgt = tree_of_rec(dendropy, tgt_rec, tns)[0]
+        kw = {}
+        if pct:
+            kw["support_as_percentages"] = True
+        if as_label:
+            kw["set_support_as_node_label"] = True
+        if route.startswith("TreeArray"):
+            ta.summarize_splits_on_tree(tgt, **kw)
+        else:
+            fresh().split_distribution(use_tree_weights=use_w, default_edge_length_value=0).summarize_splits_on_tree(tgt, **kw)
+        annot = {}
+        for nd, s in node_splits(tgt)[0]:
+            want = fr.get(s, Fraction(0)) * (100 if pct else 1)
             sup = getattr(nd, "support", None)
+            annot.setdefault(s, set()).add(sup)
             if sup is None or not close(sup, float(want), 1e-12):
-                ctx.fail("support", "%s: node with split %d carries support %r, frequency is %s" % (route, s, sup, want), case)
+                ctx.fail("support", "%s: support %r for split %d, frequency %s%s" % (route, sup, s, fr.get(s, 0), " (as percentage)" if pct else ""), case)
                 break
-    # ---- (e) summaries on a target tree
-    if trees and len(rootings) == 1:
-        tgt = c04.clone(dendropy, trees[ctx.rng.randrange(len(trees))])
-        ta.summarize_splits_on_tree(tgt)
-        per_split = {}
-        for t in trees:
-            for s, l in c04.split_lengths(t).items():
-                per_split.setdefault(s, []).append(l)
-        masks = tu.leafset_masks(tgt)
-        L = masks[id(tgt.seed_node)]
-        low = L & -L
-        rooted = bool(tgt.is_rooted)
-        if not case["basal_bifurcation_survives"]:
-            for nd in tu.walk(tgt.seed_node):
-                m = masks[id(nd)]
-                s = m if rooted else ((L & ~m) if (m & low) else m)
-                vals = per_split.get(s, [])
-                if not vals:
-                    continue
-                if not close(getattr(nd, "support", -1), float(fr.get(s, 0)), 1e-12):
-                    ctx.fail("support", "summarize_splits_on_tree: support %r for split %d, frequency %s" % (getattr(nd, "support", None), s, fr.get(s)), case)
+            if as_label:
+                try:
+                    lab = float(nd.label)
+                except (TypeError, ValueError):
+                    lab = None
+                if lab is None or abs(lab - float(want)) > 0.5e-4 + 1e-9:
+                    ctx.fail("support", "%s(set_support_as_node_label): label %r for split %d, support is %s" % (route, nd.label, s, want), case)
                     break
-                e = nd.edge
-                mean = sum(vals, Fraction(0)) / len(vals)
-                sv = sorted(vals)
-                med = sv[len(sv) // 2] if len(sv) % 2 else (sv[len(sv) // 2 - 1] + sv[len(sv) // 2]) / 2
-                ok = close(e.length_mean, float(mean)) and close(e.length_median, float(med)) and \
-                    close(e.length_range[0], float(sv[0])) and close(e.length_range[1], float(sv[-1]))
-                if ok and len(vals) >= 2:
-                    var = sum(((v - mean) ** 2 for v in vals), Fraction(0)) / (len(vals) - 1)
-                    ok = close(e.length_sd ** 2, float(var), 1e-6)
-                if not ok:
-                    ctx.fail("summary", "edge of split %d: mean/median/range/sd = %r/%r/%r/%r, values over the input trees are %s" % (
-                        s, e.length_mean, e.length_median, e.length_range, e.length_sd, [str(v) for v in vals]), case)
-                    break
+            vals = per_split.get(s, [])
+            if not vals or s in basal_set:
+                continue    # the value list of a doubly counted basal split is part of the documented defect
+            prob = summary_problem(nd.edge, "length_", vals)
+            if prob:
+                ctx.fail("summary", "%s: edge of split %d: %s" % (route, s, prob), case)
+                break
     # ---- (g) maximum credibility
     got_scores = {}
-    if trees and len(rootings) == 1:
+    if len(rootings) == 1:
+        absent_bits = sorted(F - c01.bits_of(tu.leafset_masks(trees[0])[id(trees[0].seed_node)]))
         for kind in ("sum", "prod"):
             if kind == "sum":
                 scores, idx = ta.calculate_sum_of_split_supports(include_external_splits=incl)
                 best = ta.maximum_sum_of_split_support_tree(include_external_splits=incl, summarize_splits=False)
+                best_tl = fresh().maximum_sum_of_split_support_tree(include_external_splits=incl)
             else:
                 scores, idx = ta.calculate_log_product_of_split_supports(include_external_splits=incl)
                 best = ta.maximum_product_of_split_support_tree(include_external_splits=incl, summarize_splits=False)
+                best_tl = fresh().maximum_product_of_split_support_tree(include_external_splits=incl)
             got_scores[kind] = (scores, idx)
-            if idx is None or scores[idx] != max(scores) or idx != scores.index(max(scores)):
-                ctx.fail("mcc", "%s-of-support: reported maximiser %s is not the first maximum of the reported scores %s" % (kind, idx, scores), case)
+            if len(scores) != len(trees) or idx is None or not (0 <= idx < len(scores)) or scores[idx] != max(scores):
+                ctx.fail("mcc-argmax", "%s-of-support: reported maximiser %s does not attain the maximum of the reported scores %s" % (kind, idx, scores), case)
                 continue
-            canon = c01.canon_rooted if best.is_rooted else c01.canon_unrooted
-            if canon(best) != canon(trees[idx]):
-                ctx.fail("mcc", "maximum %s-of-support tree has topology %s, input tree %d attaining the maximum score is %s" % (
-                    kind, canon(best), idx, canon(trees[idx])), case)
+            tops = argmax_set(scores)
+            tl_judged = use_w or all(t.weight is None for t in trees)     # TreeList routes always weight by tree.weight
+            for route, b in (("TreeArray", best), ("TreeList", best_tl)):
+                if route == "TreeList" and not tl_judged:
+                    continue
+                canon = c01.canon_rooted if b.is_rooted else c01.canon_unrooted
+                have = canon(b)
+                if any(have == canon(trees[i]) for i in tops):
+                    continue
+                if route == "TreeArray" and absent_bits and any(have == canon(trees[i], extras=tuple(
+                        sorted(F - c01.bits_of(tu.leafset_masks(trees[i])[id(trees[i].seed_node)])))) for i in tops):
+                    ctx.fail("mcc", "maximum %s-of-support tree is input tree %s with the namespace members it lacks (%s) added as leaves: %s" % (
+                        kind, tops, absent_bits, have), dict(case, defect=DEFECT_ABSENT))
+                    continue
+                ctx.fail("mcc-topology", "%s maximum %s-of-support tree has topology %s, the input trees attaining the maximum score are %s" % (
+                    route, kind, have, [canon(trees[i]) for i in tops]), case)
             # the scores themselves, from scratch
             for i, t in enumerate(trees):
-                tl_mask = tu.leafset_masks(t)[id(t.seed_node)]
+                if basal[i] is not None:
+                    continue     # the doubly counted basal split enters the tree's own score twice (documented defect)
+                nsp, tl_mask = node_splits(t)
                 Ft = c01.bits_of(tl_mask)
                 sc = Fraction(0) if kind == "sum" else 0.0
-                for nd in tu.walk(t.seed_node):
-                    pass
-                masks_t = tu.leafset_masks(t)
-                lowt = tl_mask & -tl_mask
-                rt = bool(t.is_rooted)
-                seen = []
-                for nd in tu.walk(t.seed_node):
-                    m = masks_t[id(nd)]
-                    s = m if rt else ((tl_mask & ~m) if (m & lowt) else m)
-                    seen.append(s)
-                if case["basal_bifurcation_survives"] or len(set(seen)) != len(seen):
-                    sc = None
-                    break
-                for s in seen:
+                for s in sorted({s for _nd, s in nsp}):
                     A = c01.bits_of(s) & Ft
                     triv = len(A) <= 1 or len(Ft - A) <= 1
                     if incl or s == tl_mask or not triv:
@@ -357,27 +492,28 @@ def check_sample(ctx, dendropy, tns, trees, use_w, thr, incl, pending):
                             sc += f
                         elif f:
                             sc += math.log(float(f))
-                if sc is not None and not close(scores[i], float(sc), 1e-9):
-                    ctx.fail("mcc", "%s-of-support score of tree %d reported as %r, from the frequencies it is %r" % (kind, i, scores[i], float(sc)), case)
+                if not close(scores[i], float(sc), 1e-9):
+                    ctx.fail("mcc-score", "%s-of-support score of tree %d reported as %r, from the frequencies it is %r" % (kind, i, scores[i], float(sc)), case)
                     break
     # ---- correspondence
     thr_tok = "N" if thr_v is None else tu.frac(thr_v)
     line = "summ %d %s %d %d %d %s %d %s" % (
-        use_w, thr_tok, incl, allmask, len(members), " ".join(map(str, members)), len(trees),
-        " ".join("%s %s %s" % (r["rooted"], "N" if r["weight"] is None else r["weight"], " ".join(r["tree"])) for r in case["trees"]))
-    impl = {"freqs": {s: sd[s] for s in sd.split_counts}, "scores": got_scores, "rootings": rootings}
+        use_w, thr_tok, incl, allmask, len(members), " ".join(map(str, members)), len(trees), recs_line(case))
+    impl = {"freqs": {s: sd[s] for s in sd}, "scores": got_scores, "rootings": rootings}
     if len(rootings) == 1:
         try:
             con = ta.consensus_tree(min_freq=thr_v, summarize_splits=False)
             impl["cons"] = c01.render_h(con.seed_node, tns)
             impl["crooted"] = bool(con.is_rooted)
         except Exception as e:
+            if not common.is_library_exception(e):
+                raise
             impl["cons"] = "EXC " + type(e).__name__
-        lens = {}
-        for s, vals in ta.split_distribution.split_edge_lengths.items():
-            lens[s] = list(vals)
-        impl["lens"] = lens
+        impl["lens"] = {s: list(vals) for s, vals in ta.split_distribution.split_edge_lengths.items()}
     pending.append((line, case, impl))
+    if annot is not None:
+        aline = "annot %d %d %d %s %s %s" % (use_w, pct, len(trees), recs_line(case), tgt_rec["rooted"], " ".join(tgt_rec["tree"]))
+        pending.append((aline, case, {"annot": annot}))
 
 
 def parse_sections(o):
@@ -394,8 +530,24 @@ def flush(ctx, pending):
         if o is None:
             continue
         ctx.compared()
-        if o in ("bad-op", "bad-trees"):
-            ctx.disagree("summ", case, "ok", o)
+        if o.startswith("bad-"):
+            ctx.disagree(line.split(" ", 1)[0], case, "ok", o)
+            continue
+        if "annot" in impl:
+            model = {}
+            for tok in o.split():
+                s, _, f = tok.partition(":")
+                model.setdefault(int(s), set()).add(Fraction(f))
+            bad = None
+            if set(model) != set(impl["annot"]):
+                bad = "splits of the target differ"
+            else:
+                for s, vals in impl["annot"].items():
+                    if len(model[s]) != 1 or any(v is None or not close(v, float(min(model[s])), 1e-12) for v in vals):
+                        bad = "support of split %d: impl %s model %s" % (s, sorted(vals, key=str), [str(x) for x in model[s]])
+                        break
+            if bad:
+                ctx.disagree("annot", case, bad, o[:300])
             continue
         sec = parse_sections(o)
         mf = {}
@@ -440,10 +592,11 @@ def flush(ctx, pending):
             else:
                 for s, vals in impl["lens"].items():
                     n, mean, med, lo, hi, var = ml[s]
-                    fv = [Fraction(v) for v in vals]
-                    if int(n) != len(vals) or not close(float(Fraction(mean)), float(sum(fv, Fraction(0)) / len(fv))) \
-                            or Fraction(lo) != min(fv) or Fraction(hi) != max(fv):
-                        bad = "length statistics of split %d" % s
+                    emean, emed, elo, ehi, evar = exact_stats([Fraction(v) for v in vals])
+                    if int(n) != len(vals) or Fraction(mean) != emean or Fraction(med) != emed or Fraction(lo) != elo \
+                            or Fraction(hi) != ehi or (var == "inf") != (evar is None) or (evar is not None and Fraction(var) != evar):
+                        bad = "length statistics of split %d: model %s, from the implementation's value list %s" % (
+                            s, ml[s], [str(x) for x in (len(vals), emean, emed, elo, ehi, evar)])
                         break
         if bad:
             ctx.disagree("summ", case, bad, o[:300])
@@ -451,72 +604,70 @@ def flush(ctx, pending):
 
 
 # ------------------------------------------------------------------ collapse
-def op_collapse(ctx, dendropy, pending_c):
+def gen_collapse(ctx, dendropy):
     rng = ctx.rng
     tns, trees = gen_sample(dendropy, rng, ctx)
-    rootings = {t.is_rooted for t in trees}
-    if len(rootings) != 1 or any(tu.leafset_masks(t)[id(t.seed_node)] != tu.leafset_masks(trees[0])[id(trees[0].seed_node)] for t in trees):
-        return
+    Fmask = members_mask(tns)
+    if len({t.is_rooted for t in trees}) != 1 or any(tu.leafset_masks(t)[id(t.seed_node)] != Fmask for t in trees):
+        return None
+    if any(basal_split(t) is not None for t in trees):
+        return None
     use_w = rng.random() < 0.5
     thr = rng.choice([0.25, 0.5, "GTH", 0.75, 1.0])
+    src = trees[rng.randrange(len(trees))] if rng.random() < 0.7 else c04.perturb(dendropy, rng, trees[0])
+    if basal_split(src) is not None:
+        return None
+    tgt = c04.clone(dendropy, src)
+    tgt.encode_bipartitions()      # normal form only (no unifurcation, no basal bifurcation): the call under test re-encodes first, a no-op here
+    return dict(sample_case(tns, trees, use_w, thr, False), op="collapse", target=tree_rec(tgt))
+
+
+def run_collapse(ctx, dendropy, case, pending_c):
+    tns, trees = trees_of_case(dendropy, case)
+    use_w, thr = case["use_weights"], case["threshold"]
     thr_v = thr_value(dendropy, thr)
     fr, _ = oracle_freqs(trees, use_w)
-    src = trees[rng.randrange(len(trees))] if rng.random() < 0.7 else c04.perturb(dendropy, rng, trees[0])
-    tgt = c04.clone(dendropy, src)
-    case = dict(sample_case(tns, trees, use_w, thr, False), op="collapse",
-                target={"rooted": c01.ROOT[tgt.is_rooted], "tree": tu.encode_tree(tgt, with_labels=False)[0]})
-    if case["basal_bifurcation_survives"] or c04.basal_survives(tgt):
-        return
-    tgt.encode_bipartitions()      # the call re-encodes first (suppresses unifurcations, collapses an unrooted basal bifurcation)
-    before = root_tip(tgt)
-    masks = tu.leafset_masks(tgt)
-    L = masks[id(tgt.seed_node)]
-    low = L & -L
-    rooted = bool(tgt.is_rooted)
-
-    def split_of(m):
-        return m if rooted else ((L & ~m) if (m & low) else m)
-    ta = dendropy.TreeArray(taxon_namespace=tns, use_tree_weights=use_w)
-    tl = dendropy.TreeList(taxon_namespace=tns)
-    for t in trees:
-        c = c04.clone(dendropy, t)
-        c.weight = t.weight
-        tl.append(c)
-    ta.add_trees(tl)
     ctx.case(["collapse", stable_hash(case)], len(trees) >= 2, kind="collapse")
-    # expected surviving internal splits: the encoding is taken on the tree after default encoding (unifurcations suppressed)
-    enc_t = c04.clone(dendropy, tgt)
-    enc_t.encode_bipartitions()
-    m2 = tu.leafset_masks(enc_t)
-    weak_leaf = any(fr.get(split_of(m2[id(nd)]), Fraction(0)) < Fraction(thr_v) for nd in tu.walk(enc_t.seed_node) if not nd._child_nodes)
-    want_internal = sorted(split_of(m2[id(nd)]) for nd in tu.walk(enc_t.seed_node)
-                           if nd._child_nodes and nd is not enc_t.seed_node and fr.get(split_of(m2[id(nd)]), Fraction(0)) >= Fraction(thr_v))
-    toks, ids = tu.encode_tree(tgt, with_labels=False)
-    case["target"]["tree"] = toks
-    try:
-        ta.collapse_edges_with_less_than_minimum_support(tgt, min_freq=thr_v)
-        got = tu.render_tree(tgt, ids)
-    except ValueError as e:
-        got = "E"
-        if not weak_leaf:
-            ctx.fail("collapse", "collapse_edges_with_less_than_minimum_support raised ValueError: %s" % str(e)[:100], case)
-    if got != "E":
-        probs = tu.arborescence_problems(tgt)
-        if probs:
-            ctx.fail("collapse", "tree malformed after collapsing weak edges: %s" % probs, case)
-        after = root_tip(tgt)
-        if after != before:
-            ctx.fail("collapse", "root-to-tip distances changed by collapsing weak edges: %s -> %s" % (
-                {k: str(v) for k, v in before.items()}, {k: str(v) for k, v in after.items()}), case)
-        m3 = tu.leafset_masks(tgt)
-        got_internal = sorted(split_of(m3[id(nd)]) for nd in tu.walk(tgt.seed_node) if nd._child_nodes and nd is not tgt.seed_node)
-        if got_internal != want_internal:
-            ctx.fail("collapse", "internal edges left after collapsing below %s: %s, those with frequency >= threshold: %s" % (thr, got_internal, want_internal), case)
-    line = "collapse %d %s %d %s %s %s" % (
-        use_w, tu.frac(thr_v), len(trees),
-        " ".join("%s %s %s" % (r["rooted"], "N" if r["weight"] is None else r["weight"], " ".join(r["tree"])) for r in case["trees"]),
-        case["target"]["rooted"], " ".join(toks))
-    pending_c.append((line, case, got))
+    got_model = None
+    for route in ("TreeArray", "SplitDistribution"):
+        tgt, ids = tree_of_rec(dendropy, case["target"], tns)
+        before = root_tip(tgt)
+        nsp, _L = node_splits(tgt)
+        thr_f = Fraction(thr_v)
+        weak_leaf = any(fr.get(s, Fraction(0)) < thr_f for nd, s in nsp if not nd._child_nodes)
+        want_internal = sorted(s for nd, s in nsp if nd._child_nodes and nd is not tgt.seed_node and fr.get(s, Fraction(0)) >= thr_f)
+        if route == "TreeArray":
+            ta = dendropy.TreeArray(taxon_namespace=tns, use_tree_weights=use_w)
+            ta.add_trees(fresh_list(dendropy, tns, trees))
+            holder = ta
+        else:
+            holder = fresh_list(dendropy, tns, trees).split_distribution(use_tree_weights=use_w)
+        try:
+            holder.collapse_edges_with_less_than_minimum_support(tgt, min_freq=thr_v)
+            got = tu.render_tree(tgt, ids)
+        except Exception as e:
+            if not common.is_library_exception(e):
+                raise
+            got = "E"       # the call refuses (whatever the exception type); legitimate only when a leaf edge is below the threshold
+            if not weak_leaf:
+                ctx.fail("collapse", "%s.collapse_edges_with_less_than_minimum_support refused (%s: %s) although no leaf edge is below the threshold" % (
+                    route, type(e).__name__, str(e)[:100]), case)
+        if got != "E":
+            probs = tu.arborescence_problems(tgt)
+            if probs:
+                ctx.fail("collapse", "%s: tree malformed after collapsing weak edges: %s" % (route, probs), case)
+            after = root_tip(tgt)
+            if after != before:
+                ctx.fail("collapse", "%s: root-to-tip distances changed by collapsing weak edges: %s -> %s" % (
+                    route, {k: str(v) for k, v in before.items()}, {k: str(v) for k, v in after.items()}), case)
+            got_internal = sorted(s for nd, s in node_splits(tgt)[0] if nd._child_nodes and nd is not tgt.seed_node)
+            if got_internal != want_internal:
+                ctx.fail("collapse", "%s: internal edges left after collapsing below %s: %s, those with frequency >= threshold: %s" % (
+                    route, thr, got_internal, want_internal), case)
+        if route == "TreeArray":
+            got_model = got
+    line = "collapse %d %s %d %s %s %s" % (use_w, tu.frac(thr_v), len(trees), recs_line(case), case["target"]["rooted"], " ".join(case["target"]["tree"]))
+    pending_c.append((line, case, got_model))
 
 
 def flush_c(ctx, pending_c):
@@ -530,27 +681,27 @@ def flush_c(ctx, pending_c):
     del pending_c[:]
 
 
-
 # ------------------------------------------------------------------ incremental use: caches must never be stale
-def op_incremental(ctx, dendropy, pending):
+def gen_incremental(ctx, dendropy):
     """trees are counted in batches on ONE TreeArray / SplitDistribution; between batches the summaries are queried in
     varying orders (this populates the frequency and summary caches); every answer must describe all trees counted so far"""
     rng = ctx.rng
     tns, trees = gen_sample(dendropy, rng, ctx)
     rootings = {t.is_rooted for t in trees}
-    if len(rootings) != 1 or len(trees) < 2 or any(c04.basal_survives(t) for t in trees):
-        return
+    if len(rootings) != 1 or len(trees) < 2 or any(basal_split(t) is not None for t in trees):
+        return None
     use_w = rng.random() < 0.5
     cuts = sorted(rng.sample(range(1, len(trees)), min(len(trees) - 1, rng.randint(1, 2))))
-    batches = [trees[a:b] for a, b in zip([0] + cuts, cuts + [len(trees)])]
-    script = [[rng.choice(["consensus", "summarize", "summarize", "freq", "scores", "mcc"]) for _ in range(rng.randint(0, 3))]
-              for _ in batches]
-    script[-1] = script[-1] + ["summarize"] if rng.random() < 0.7 else script[-1]
-    case = dict(sample_case(tns, trees, use_w, None, False), op="incremental", cuts=cuts, script=script)
-    run_incremental(ctx, dendropy, tns, trees, use_w, cuts, script, case)
+    script = [[[rng.choice(["consensus", "summarize", "summarize", "freq", "scores", "mcc"]), rng.randrange(1 << 16)]
+               for _ in range(rng.randint(0, 3))] for _ in range(len(cuts) + 1)]
+    if rng.random() < 0.7:
+        script[-1].append(["summarize", rng.randrange(1 << 16)])
+    return dict(sample_case(tns, trees, use_w, None, False), op="incremental", cuts=cuts, script=script)
 
 
-def run_incremental(ctx, dendropy, tns, trees, use_w, cuts, script, case):
+def run_incremental(ctx, dendropy, case):
+    tns, trees = trees_of_case(dendropy, case)
+    use_w, cuts, script = case["use_weights"], case["cuts"], case["script"]
     batches = [trees[a:b] for a, b in zip([0] + cuts, cuts + [len(trees)])]
     ta = dendropy.TreeArray(taxon_namespace=tns, use_tree_weights=use_w)
     ctx.case(["incremental", stable_hash(case)], True, kind="incremental")
@@ -567,6 +718,7 @@ def run_incremental(ctx, dendropy, tns, trees, use_w, cuts, script, case):
             for s, l in c04.split_lengths(t).items():
                 per_split.setdefault(s, []).append(l)
         for q in queries:
+            q, pick = (q, 0) if isinstance(q, str) else q      # older recorded cases carry the query name only
             if q == "consensus":
                 ta.consensus_tree(min_freq=0.5)
             elif q == "freq":
@@ -580,15 +732,9 @@ def run_incremental(ctx, dendropy, tns, trees, use_w, cuts, script, case):
             elif q == "mcc":
                 ta.maximum_product_of_split_support_tree()
             else:
-                tgt = c04.clone(dendropy, seen[ctx.rng.randrange(len(seen))])
+                tgt = c04.clone(dendropy, seen[pick % len(seen)])
                 ta.summarize_splits_on_tree(tgt)
-                masks = tu.leafset_masks(tgt)
-                L = masks[id(tgt.seed_node)]
-                low = L & -L
-                rooted = bool(tgt.is_rooted)
-                for nd in tu.walk(tgt.seed_node):
-                    m = masks[id(nd)]
-                    s = m if rooted else ((L & ~m) if (m & low) else m)
+                for nd, s in node_splits(tgt)[0]:
                     vals = per_split.get(s, [])
                     if not vals:
                         continue
@@ -596,17 +742,13 @@ def run_incremental(ctx, dendropy, tns, trees, use_w, cuts, script, case):
                         ctx.fail("stale", "after %d trees, summarize_splits_on_tree gives support %r for split %d, frequency over all counted trees is %s" % (
                             len(seen), getattr(nd, "support", None), s, fr.get(s)), case)
                         return
-                    mean = sum(vals, Fraction(0)) / len(vals)
-                    sv = sorted(vals)
-                    e = nd.edge
-                    if not (close(e.length_mean, float(mean)) and close(e.length_range[0], float(sv[0])) and close(e.length_range[1], float(sv[-1]))):
-                        ctx.fail("stale", "after %d trees, edge of split %d is summarised as mean %r range %r; the %d values counted so far are %s" % (
-                            len(seen), s, e.length_mean, e.length_range, len(vals), [str(v) for v in vals]), case)
+                    prob = summary_problem(nd.edge, "length_", vals)
+                    if prob:
+                        ctx.fail("stale", "after %d trees, edge of split %d: %s" % (len(seen), s, prob), case)
                         return
 
 
-
-# ------------------------------------------------------------------ further entry points (oracle only)
+# ------------------------------------------------------------------ node ages, edge-length settings, per-tree scores (oracle only)
 def ultrametric_on(dendropy, rng, tns, taxa, shape=None):
     """rooted ultrametric tree with dyadic node heights (all tips at height 0)"""
     taxa = list(taxa)
@@ -639,7 +781,7 @@ def tip_age(nd):
     return d
 
 
-def op_more(ctx, dendropy, pending):
+def gen_more(ctx, dendropy):
     rng = ctx.rng
     n = rng.randint(3, 7)
     tns = tu.make_namespace(dendropy, n)
@@ -651,20 +793,23 @@ def op_more(ctx, dendropy, pending):
     if use_w:
         for t in trees:
             t.weight = rng.choice([0.5, 1.0, 2.0])
-    case = dict(sample_case(tns, trees, use_w, None, False), op="more")
+    return dict(sample_case(tns, trees, use_w, None, rng.random() < 0.5), op="more",
+                mode=rng.choice([None, "mean-length", "median-length", "support", "mean-age", "median-age"]),
+                target_index=rng.randrange(k), probe_index=rng.randrange(k), via=rng.choice(["TreeArray", "SplitDistribution"]))
+
+
+def run_more(ctx, dendropy, case):
+    tns, trees = trees_of_case(dendropy, case)
+    use_w, incl, mode = case["use_weights"], case["incl_external"], case["mode"]
+    k = len(trees)
     ctx.case(["more", stable_hash(case)], len({c01.canon_rooted(t) for t in trees}) >= 2, kind="more")
     fr, _ = oracle_freqs(trees, use_w)
-
-    def fresh():
-        tl = dendropy.TreeList(taxon_namespace=tns)
-        for t in trees:
-            c = c04.clone(dendropy, t)
-            c.weight = t.weight
-            tl.append(c)
-        return tl
+    fresh = lambda: fresh_list(dendropy, tns, trees)
     ta = dendropy.TreeArray(taxon_namespace=tns, use_tree_weights=use_w, ignore_node_ages=False)
     ta.add_trees(fresh())
     sd = ta.split_distribution
+    if case.get("via") == "SplitDistribution":
+        sd = fresh().split_distribution(use_tree_weights=use_w, ignore_node_ages=False, default_edge_length_value=0)
     # per-split ages and lengths over the input trees
     ages, lens = {}, {}
     for t in trees:
@@ -672,53 +817,44 @@ def op_more(ctx, dendropy, pending):
         for nd in tu.walk(t.seed_node):
             ages.setdefault(masks[id(nd)], []).append(tip_age(nd))
             lens.setdefault(masks[id(nd)], []).append(tu.F(nd.edge.length))
-    tgt = c04.clone(dendropy, trees[rng.randrange(k)])
-    mode = rng.choice([None, "mean-length", "median-length", "support", "mean-age"])
+    tgt = c04.clone(dendropy, trees[case["target_index"] % k])
     try:
-        ta.summarize_splits_on_tree(tgt, set_edge_lengths=mode)
+        sd.summarize_splits_on_tree(tgt, set_edge_lengths=mode)
     except Exception as e:
+        if not common.is_library_exception(e):
+            raise
         ctx.fail("summary", "summarize_splits_on_tree(set_edge_lengths=%r) raised %s: %s" % (mode, type(e).__name__, str(e)[:100]), case)
         return
     masks = tu.leafset_masks(tgt)
     for nd in tu.walk(tgt.seed_node):
         s = masks[id(nd)]
-        av = sorted(ages[s])
-        mean = sum(av, Fraction(0)) / len(av)
-        med = av[len(av) // 2] if len(av) % 2 else (av[len(av) // 2 - 1] + av[len(av) // 2]) / 2
-        ok = close(nd.age_mean, float(mean)) and close(nd.age_median, float(med)) and \
-            close(nd.age_range[0], float(av[0])) and close(nd.age_range[1], float(av[-1]))
-        if ok and len(av) >= 2:
-            var = sum(((v - mean) ** 2 for v in av), Fraction(0)) / (len(av) - 1)
-            ok = close(nd.age_sd ** 2, float(var), 1e-6)
-        if not ok:
-            ctx.fail("summary", "node of split %d: age mean/median/range/sd = %r/%r/%r/%r, ages of that split over the input trees are %s" % (
-                s, nd.age_mean, nd.age_median, nd.age_range, nd.age_sd, [str(v) for v in av]), case)
+        prob = summary_problem(nd, "age_", ages[s])
+        if prob:
+            ctx.fail("summary", "node of split %d: age %s" % (s, prob), case)
             return
-        lv = sorted(lens[s])
-        lmean = sum(lv, Fraction(0)) / len(lv)
-        lmed = lv[len(lv) // 2] if len(lv) % 2 else (lv[len(lv) // 2 - 1] + lv[len(lv) // 2]) / 2
+        lmean, lmed, _lo, _hi, _var = exact_stats(lens[s])
         if mode == "mean-length" and not close(nd.edge.length, float(lmean)):
             ctx.fail("summary", "set_edge_lengths='mean-length': edge of split %d has length %r, mean of its lengths is %s" % (s, nd.edge.length, lmean), case)
             return
-        if mode == "median-length" and not close(nd.edge.length, float(lmed)):
+        if mode == "median-length" and (nd.edge.length is None or Fraction(nd.edge.length) != lmed):
             ctx.fail("summary", "set_edge_lengths='median-length': edge of split %d has length %r, median of its lengths is %s" % (s, nd.edge.length, lmed), case)
             return
         if mode == "support" and not close(nd.edge.length, float(fr[s])):
             ctx.fail("summary", "set_edge_lengths='support': edge of split %d has length %r, frequency %s" % (s, nd.edge.length, fr[s]), case)
             return
-    if mode == "mean-age":
-        # lengths were set from mean ages: every node must now sit at its mean age above its descendant tips
+    if mode in ("mean-age", "median-age"):
+        # lengths were set from the summarised ages: every node must now sit at that age above its descendant tips
+        which = 0 if mode == "mean-age" else 1
         for nd in tu.walk(tgt.seed_node):
             if nd._parent_node is None:
                 continue
             s, ps = masks[id(nd)], masks[id(nd._parent_node)]
-            want = sum(ages[ps], Fraction(0)) / len(ages[ps]) - sum(ages[s], Fraction(0)) / len(ages[s])
+            want = exact_stats(ages[ps])[which] - exact_stats(ages[s])[which]
             if want >= 0 and not close(nd.edge.length, float(want)):
-                ctx.fail("summary", "set_edge_lengths='mean-age': edge of split %d has length %r, difference of mean ages is %s" % (s, nd.edge.length, want), case)
+                ctx.fail("summary", "set_edge_lengths=%r: edge of split %d has length %r, difference of the summarised ages is %s" % (mode, s, nd.edge.length, want), case)
                 return
     # scores of one tree against the distribution, through SplitDistribution
-    probe = c04.clone(dendropy, trees[rng.randrange(k)])
-    incl = rng.random() < 0.5
+    probe = trees[case["probe_index"] % k]
     pm = tu.leafset_masks(probe)
     want_sum = sum((fr.get(pm[id(nd)], Fraction(0)) for nd in tu.walk(probe.seed_node) if incl or nd._child_nodes), Fraction(0))
     got_sum = sd.sum_of_split_support_on_tree(c04.clone(dendropy, probe), include_external_splits=incl)
@@ -728,28 +864,57 @@ def op_more(ctx, dendropy, pending):
     got_log = sd.log_product_of_split_support_on_tree(c04.clone(dendropy, probe), include_external_splits=incl)
     if not close(got_log, want_log):
         ctx.fail("support", "log_product_of_split_support_on_tree = %r, from the frequencies %r" % (got_log, want_log), case)
-    # TreeList route to the maximum-credibility tree returns the input tree object attaining the maximum
-    tl = fresh()
-    best = tl.maximum_product_of_split_support_tree()
-    scores, idx = ta.calculate_log_product_of_split_supports()
-    if best is not tl[idx] and not any(best is t for t in tl):
-        ctx.fail("mcc", "TreeList.maximum_product_of_split_support_tree returned a tree that is not a member of the list", case)
-    elif c01.canon_rooted(best) != c01.canon_rooted(trees[idx]):
-        ctx.fail("mcc", "TreeList.maximum_product_of_split_support_tree has topology %s, the tree attaining the maximum score is %s" % (
-            c01.canon_rooted(best), c01.canon_rooted(trees[idx])), case)
+    # TreeList routes to the maximum-credibility tree return a MEMBER of the list attaining the maximum of the scores the collection reports
+    for kind in ("prod", "sum"):
+        tl = fresh()
+        if kind == "prod":
+            best = tl.maximum_product_of_split_support_tree()
+            scores, _idx = ta.calculate_log_product_of_split_supports()
+        else:
+            best = tl.maximum_sum_of_split_support_tree()
+            scores, _idx = ta.calculate_sum_of_split_supports()
+        where = [i for i, t in enumerate(tl) if t is best]
+        tops = argmax_set(scores, 1e-9)
+        if not where:
+            ctx.fail("mcc-topology", "TreeList.maximum_%s_of_split_support_tree returned a tree that is not a member of the list" % kind, case)
+        elif not any(c01.canon_rooted(best) == c01.canon_rooted(trees[i]) for i in tops):
+            ctx.fail("mcc-topology", "TreeList.maximum_%s_of_split_support_tree has topology %s, the trees attaining the maximum score %s are %s" % (
+                kind, c01.canon_rooted(best), tops, [c01.canon_rooted(trees[i]) for i in tops]), case)
 
 
-def run_op(ctx, dendropy, op, pending, pending_c):
+# ------------------------------------------------------------------ dispatch
+def gen_case(ctx, dendropy, op):
     rng = ctx.rng
     if op == "summ":
         tns, trees = gen_sample(dendropy, rng, ctx)
-        check_sample(ctx, dendropy, tns, trees, rng.random() < 0.6, rng.choice(THRESHOLDS), rng.random() < 0.3, pending)
-    elif op == "incremental":
-        op_incremental(ctx, dendropy, pending)
-    elif op == "more":
-        op_more(ctx, dendropy, pending)
-    else:
-        op_collapse(ctx, dendropy, pending_c)
+        src = trees[rng.randrange(len(trees))] if rng.random() < 0.75 else c04.perturb(dendropy, rng, trees[0])
+        return sample_case(tns, trees, rng.random() < 0.6, rng.choice(THRESHOLDS), rng.random() < 0.3,
+                           target=tree_rec(src), summ_opts={"pct": rng.random() < 0.25, "label": rng.random() < 0.25})
+    if op == "incremental":
+        return gen_incremental(ctx, dendropy)
+    if op == "more":
+        return gen_more(ctx, dendropy)
+    return gen_collapse(ctx, dendropy)
+
+
+def run_case(ctx, dendropy, case, pending, pending_c):
+    """run ONE self-contained case; an exception escaping the library is a candidate violation, one raised by harness code is a harness bug"""
+    op = case.get("op")
+    try:
+        if op == "summ":
+            check_sample(ctx, dendropy, case, pending)
+        elif op == "collapse":
+            run_collapse(ctx, dendropy, case, pending_c)
+        elif op == "incremental":
+            run_incremental(ctx, dendropy, case)
+        elif op == "more":
+            run_more(ctx, dendropy, case)
+        else:
+            raise ValueError("unknown op %r" % (op,))
+    except Exception as e:
+        if not common.is_library_exception(e):
+            raise
+        ctx.fail("exception", "%s raised %s: %s" % (op, type(e).__name__, str(e)[:200]), case)
 
 
 def run(ctx):
@@ -761,12 +926,10 @@ def run(ctx):
         if ctx.out_of_time():
             break
         op = rng.choices(["summ", "collapse", "incremental", "more"], [0.5, 0.17, 0.17, 0.16])[0]
-        state = rng.getstate()
-        try:
-            run_op(ctx, dendropy, op, pending, pending_c)
-        except Exception as e:
-            ctx.fail("exception", "%s raised %s: %s" % (op, type(e).__name__, str(e)[:200]),
-                     {"op": op, "rng_state": [state[0], list(state[1]), state[2]], "tier": ctx.tier})
+        case = gen_case(ctx, dendropy, op)
+        if case is None:
+            continue
+        run_case(ctx, dendropy, case, pending, pending_c)
         if len(pending) >= 150:
             flush(ctx, pending)
         if len(pending_c) >= 150:
@@ -795,7 +958,7 @@ def exhaustive(ctx, dendropy, pending):
                 trees = [tu.build_tree(dendropy, trees_all[i][0], tns, members[trees_all[i][1]:] + members[:trees_all[i][1]],
                                        lambda: 1.0, rooted) for i in combo]
                 thr = THRESHOLDS[count % len(THRESHOLDS)]
-                check_sample(ctx, dendropy, tns, trees, True, thr, False, pending)
+                run_case(ctx, dendropy, sample_case(tns, trees, True, thr, False), pending, [])
                 count += 1
                 if len(pending) >= 300:
                     flush(ctx, pending)
@@ -805,21 +968,18 @@ def exhaustive(ctx, dendropy, pending):
 
 def replay(ctx, rec):
     dendropy = __import__("dendropy")
-    c = rec["replay"]
+    c = dict(rec["replay"])
+    c.pop("defect", None)
     pending, pending_c = [], []
     if "rng_state" in c:
+        # records written before every case became self-contained: regenerate the case from the recorded generator state
         st = c["rng_state"]
         ctx.rng.setstate((st[0], tuple(st[1]), st[2]))
         ctx.tier = c.get("tier", ctx.tier)
-        try:
-            run_op(ctx, dendropy, c["op"], pending, pending_c)
-        except Exception as e:
-            ctx.fail("exception", "%s raised %s: %s" % (c["op"], type(e).__name__, str(e)[:200]), c)
-    elif c.get("op") == "summ":
-        tns, trees = trees_of_case(dendropy, c)
-        check_sample(ctx, dendropy, tns, trees, c["use_weights"], c["threshold"], c["incl_external"], pending)
-    elif c.get("op") == "incremental":
-        tns, trees = trees_of_case(dendropy, c)
-        run_incremental(ctx, dendropy, tns, trees, c["use_weights"], c["cuts"], c["script"], c)
+        case = gen_case(ctx, dendropy, c["op"])
+        if case is not None:
+            run_case(ctx, dendropy, case, pending, pending_c)
+    else:
+        run_case(ctx, dendropy, c, pending, pending_c)
     flush(ctx, pending)
     flush_c(ctx, pending_c)
